@@ -68,7 +68,7 @@ func NewTr(seed int64, k Knobs) *Tr {
 	return t
 }
 
-var CommentTexts = []string{"plain", "x := y{", "} else {", "\"quoted\" `back` 'c'", "日本語 ünï", "multi\nline", "trailing newline\n", "a\n\nb }\n) ]", "if x { return }", "\\ backslash \\n", "func() {", "tab\there", "\nleading newline", "", " ", "/ slash", "* star", "x // y", "x /* y", "\n", "a\n", "100% sure %d", " /* TODO", "  // a\nb := c", "\t//x", " ", "  leading spaces"}
+var CommentTexts = []string{"plain", "x := y{", "} else {", "\"quoted\" `back` 'c'", "日本語 ünï", "multi\nline", "trailing newline\n", "a\n\nb }\n) ]", "if x { return }", "\\ backslash \\n", "func() {", "tab\there", "\nleading newline", "", " ", "/ slash", "* star", "x // y", "x /* y", "\n", "a\n", "100% sure %d", " /* TODO", "  // a\nb := c", "\t//x", " ", "  leading spaces", "keep a\rpanic(1)", "cr at end\r", "a\r\nb"}
 
 // cmt injects comments as own items and at the end of items (hosts: Block, Defs, Struct, Interface, case bodies, File).
 func (t *Tr) cmt(items []jen.Code) []jen.Code { return t.cmt2(items, true) }
@@ -222,11 +222,13 @@ func (t *Tr) L(s *jen.Statement, name string, items []jen.Code) *jen.Statement {
 		}
 	}
 	form := 0
+	spread := false
 	if t.knobs.Forms {
 		form = t.frnd.Intn(4)
 		if api.fnF == nil {
 			form &= 1
 		}
+		spread = t.frnd.Intn(3) == 0
 	}
 	filler := func(g *jen.Group) {
 		for _, it := range items {
@@ -243,6 +245,12 @@ func (t *Tr) L(s *jen.Statement, name string, items []jen.Code) *jen.Statement {
 	case form == 0:
 		t.hit("form.method")
 		return api.m(s, items...)
+	case form == 1 && spread:
+		// the items of a separately built statement spread into the receiver: s.Add(*X(items...)...) puts the
+		// very same group after the receiver's tokens (also fine for a Block after Case: the group is then an
+		// item of the case statement itself)
+		t.hit("form.add(spread func)")
+		return s.Add(*api.fn(items...)...)
 	case form == 1:
 		// function form added to the receiver: s.Add(X(items...)) — only when the construct does not look
 		// at its predecessor (Block after Case does)
